@@ -497,7 +497,7 @@ def l6(model: Model, rep: Report):
     if not bad and not callers:
         rep.ok("C02.L6", "DeclarativeCircuit.operations[write-set]", roots[0].loc, found=f"{len(ws)} writes in {len(reach)} reachable functions, none to graph state: "
                + ", ".join(sorted({'.'.join(w.key()) for w, _ in ws})), required="no graph / cache / structure write")
-    rep.floor("functions reachable from operations", len(reach), 20)
+    rep.floor("functions reachable from operations", len(reach), 6)
     rep.analysed["C02.L6 reachable functions"] = len(reach)
 
 
